@@ -739,6 +739,9 @@ func (w *World) SetWorkload(wl *WL, replicas int) {
 			return
 		}
 		o := &appsv1.StatefulSet{ObjectMeta: metav1.ObjectMeta{Name: wl.Name, Namespace: NS}, Spec: appsv1.StatefulSetSpec{Replicas: &r32}}
+		if wl.Unset && replicas == 1 {
+			o.Spec.Replicas = nil // the field left out: one replica
+		}
 		if w.Kube.Tracker().Update(stsGVR, o, NS) != nil {
 			_ = w.Kube.Tracker().Add(o)
 		}
@@ -752,6 +755,9 @@ func (w *World) SetWorkload(wl *WL, replicas int) {
 			return
 		}
 		o := &appsv1.Deployment{ObjectMeta: metav1.ObjectMeta{Name: wl.Name, Namespace: NS}, Spec: appsv1.DeploymentSpec{Replicas: &r32}}
+		if wl.Unset && replicas == 1 {
+			o.Spec.Replicas = nil
+		}
 		if w.Kube.Tracker().Update(dpGVR, o, NS) != nil {
 			_ = w.Kube.Tracker().Add(o)
 		}
@@ -774,16 +780,23 @@ func (w *World) SetWorkload(wl *WL, replicas int) {
 	}
 }
 
+func replOr1(p *int32) int {
+	if p == nil {
+		return 1
+	}
+	return int(*p)
+}
+
 // WorkloadView returns (exists, replicas) as the listers currently show it.
 func (w *World) WorkloadView(wl *WL) (bool, int) {
 	switch wl.Kind {
 	case "sts":
 		if obj, ok, _ := w.stsIdx.GetByKey(NS + "/" + wl.Name); ok {
-			return true, int(*obj.(*appsv1.StatefulSet).Spec.Replicas)
+			return true, replOr1(obj.(*appsv1.StatefulSet).Spec.Replicas)
 		}
 	case "dp":
 		if obj, ok, _ := w.dpIdx.GetByKey(NS + "/" + wl.Name); ok {
-			return true, int(*obj.(*appsv1.Deployment).Spec.Replicas)
+			return true, replOr1(obj.(*appsv1.Deployment).Spec.Replicas)
 		}
 	case "cr", "nscr":
 		plural := testhelper.FooCrd.Spec.Names.Plural
